@@ -399,7 +399,7 @@ def _run_interleave(case, obs):
     obs.sample = {"kind": "interleave", "config": cfg, "requests": len(fake.log)}
 
 
-def run_case(case, obs):
+def _run_case_inner(case, obs):
     if case["kind"] == "interleave":
         return _run_interleave(case, obs)
     if case["kind"] == "paging":
@@ -412,3 +412,19 @@ def run_case(case, obs):
 
 def classify(v):
     return None
+
+
+PROC_TZS = [None, None, "America/Los_Angeles", "Asia/Kolkata", "Pacific/Auckland", "Europe/Berlin"]
+
+
+def run_case(case, obs):
+    # the interpreter's own local time zone varies from case to case: nothing about aware datetimes may depend on it
+    from vlib import env as _env
+    import zlib
+    tzn = PROC_TZS[zlib.crc32(repr(sorted(case.items())).encode()) % len(PROC_TZS)]
+    _env.set_process_tz(tzn)
+    obs.ev("process_time_zone:" + str(tzn))
+    try:
+        return _run_case_inner(case, obs)
+    finally:
+        _env.set_process_tz(None)
